@@ -1292,7 +1292,10 @@ class Quaternion(np.ndarray):
         q**a : numpy.ndarray
             Quaternion :math:`\\mathbf{q}` to the power of ``a``
         """
-        return np.e**(a*self.logarithm)
+        a_log = a*self.logarithm
+        if not np.any(a_log):
+            return np.array([1.0, 0.0, 0.0, 0.0])
+        return Quaternion(a_log, versor=False).exponential
 
     def is_pure(self) -> bool:
         """
